@@ -43,13 +43,21 @@ func init() {
 			"Added by the strengthening round: a second block of declarations with the other validations (enum on every kind incl. formatted strings and booleans, items.enum, items.maximum, uniqueItems, pattern, multipleOf with exclusive bounds; thorough: all, quick: a PRNG-chosen quarter per pass); " +
 			"declarations placed on the path item or referenced from #/parameters; PUT/PATCH/GET/DELETE operations; form Content-Type spellings (parameters, letter case); " +
 			"operations with 2-4 parameters in several locations (every value must bind, every offending parameter must be named); struct targets with pointer and unsigned fields; " +
-			"one handler and one binder serve all requests of a declaration and the receiver overwrites the slices it was handed after recording them (a later request must still get the declared default)",
+			"one handler and one binder serve all requests of a declaration and the receiver overwrites the slices it was handed after recording them (a later request must still get the declared default). " +
+			"Added by the second strengthening round: besides a fresh struct per request, one struct value per declaration (and field shape) is kept over all its requests and holds its owner's non-zero values before the first Bind (every accepted Bind must leave exactly that request's value in it); " +
+			"string formats email, password, hostname, duration and one format the application registers itself (api.RegisterFormat; Go type and validator defined by the monitor); " +
+			"an empty text with a declared default is judged (the default) whatever validation is declared; number texts outside the core grammar that strconv accepts must be refused with 422 or bound to the strconv value (bounds applied to it); " +
+			"the texts of every query/header/form request are also handed to runtime.ReadSingleValue / runtime.ReadCollectionValue (last occurrence, items of the last occurrence; absent key; key present without values); " +
+			"in operations with form and query parameters the form body carries a field named like the query parameter; twelve array-of-arrays declarations (no panic, no server error, 422 or the items of the items)",
 		Assumptions: []string{
 			"texts outside the core literal grammar that Go's strconv nevertheless accepts (inf, NaN, hex floats, underscores) may be refused or bound to the strconv value",
 			"date-time texts other than RFC 3339 and uuid texts other than the canonical 8-4-4-4-12 form may be refused or accepted",
 			"array items are the separator-split texts with surrounding blanks trimmed and empty items dropped (documented collection-format behaviour); empty items of multi arrays are not judged",
 			"a default that itself violates the declaration's validation is not generated; validations are applied to the text the client sent",
-			"an empty text combined with a declared validation is not judged (it may be validated as the empty value or treated as absent); an empty occurrence of a multi array is not judged",
+			"an empty text combined with a declared validation (or a format that is validated: uuid, email, hostname, duration, the application's format) and NO declared default is not judged (it may be validated as the empty value or treated as absent); with a declared default the default is due; an empty occurrence of a multi array is not judged",
+			"email, hostname and duration texts are judged when they are one beyond doubt (local@domain.tld of letters, digits and inner . _ + -; dot-separated LDH labels starting with a letter; <digits><ns|us|ms|s|m|h>) or none beyond doubt (no @ or nothing on one side of it; a blank or one of @/:?# in a host name; no digit in a duration); every other text may be refused or accepted",
+			"an array whose items are arrays is outside 'array of those': binding must not panic or answer 5xx, and a handler that runs must have been handed the items of the items (items.collectionFormat, csv when none); a 422 is accepted for any of its requests",
+			"what a refused Bind leaves in a struct its caller keeps is not judged",
 			"boolean: the library's documented true-words denote true; false,0,no,n,off,f,disabled,unchecked,unselected denote false; anything else is not a boolean literal",
 			"enum of a formatted string (date, date-time, uuid, byte): a text equal to a listed value is in the enum, a text denoting the same value in another spelling is not judged; validations of a float-format number are not judged when the 32-bit and the 64-bit reading of the text disagree about them",
 			"a pointer-typed struct field may be left nil where the value-typed field would hold the zero value; an unsigned struct field is judged for unsigned decimal texts (and non-decimal texts) only",
@@ -80,6 +88,9 @@ type Req struct {
 	// Field: an additional struct target whose field is "ptr" (*T, what generated servers declare for
 	// optional parameters) or "uint" (unsigned integer of the declared width)
 	Field string `json:"field,omitempty"`
+	// BodyShadow: for query parameters of an operation that also declares form parameters, a field of the
+	// same name carried in the form body (another location: it must not be looked at)
+	BodyShadow *mon.Q `json:"shadowBody,omitempty"`
 }
 
 // Ext holds what gen.Param cannot express about a declaration (parallel to Case.Decls).
@@ -95,6 +106,9 @@ type Ext struct {
 	Level string `json:"level,omitempty"`
 	// Method of the operation ("" = POST)
 	Method string `json:"method,omitempty"`
+	// NestedCF: when set, the items are themselves arrays (of ItemsType/ItemsFormat) and this is the
+	// collectionFormat declared on them ("": none declared, which means csv)
+	NestedCF *string `json:"nestedCollectionFormat,omitempty"`
 }
 
 func (x *Ext) zero() bool { return reflect.DeepEqual(*x, Ext{}) }
@@ -118,6 +132,13 @@ type Case struct {
 	// get an operation of their own. MReqs are the requests against them.
 	Ops   [][]int `json:"ops,omitempty"`
 	MReqs []MReq  `json:"mreqs,omitempty"`
+	// Reuse: besides a fresh struct per request, every request of a declaration is also bound into ONE struct
+	// value that its owner keeps (a pooled parameter object, a long-lived field) and that held the owner's
+	// own non-zero values before its first Bind: after each accepted Bind it must describe that request only
+	Reuse bool `json:"reuse,omitempty"`
+	// Helpers: the texts of every query, header and form request are also handed to the exported readers
+	// runtime.ReadSingleValue and runtime.ReadCollectionValue (last occurrence; split items)
+	Helpers bool `json:"helpers,omitempty"`
 }
 
 // dcl is one declaration with everything that belongs to it.
@@ -149,6 +170,10 @@ type expectation struct {
 	either  bool     // not judged
 	accepts []string // acceptable canonical values
 	why     string
+	// orRefuse (with either): the text is outside the core grammar but denotes a value for strconv: the
+	// request is answered 422, or the handler runs with one of accepts (none listed: it must be 422)
+	orRefuse bool
+	class    string // of an orRefuse expectation, for signatures
 }
 
 var (
@@ -178,6 +203,46 @@ func canonFloat(bits int, v float64) string {
 		return fmt.Sprintf("float32:%08x", math.Float32bits(float32(v)))
 	}
 	return fmt.Sprintf("float64:%016x", math.Float64bits(v))
+}
+
+// verifTag is the Go type of the format "x-verif-tag", which the application registers itself
+// (api.RegisterFormat): the texts t followed by one to seven lower-case letters or digits; a text denotes itself.
+type verifTag string
+
+const tagFormat = "x-verif-tag"
+
+var reTag = regexp.MustCompile(`^t[a-z0-9]{1,7}$`)
+
+func (t verifTag) String() string                { return string(t) }
+func (t verifTag) MarshalText() ([]byte, error)  { return []byte(t), nil }
+func (t *verifTag) UnmarshalText(b []byte) error { *t = verifTag(b); return nil }
+func isTag(s string) bool                        { return reTag.MatchString(s) }
+
+// registry: the registered formats of the struct-target binders (the default ones and the application's own)
+var registry = func() strfmt.Registry {
+	r := strfmt.NewFormats()
+	var t verifTag
+	r.Add(tagFormat, &t, isTag)
+	return r
+}()
+
+var (
+	// texts that are e-mail addresses / host names / durations beyond doubt; what is neither beyond doubt one
+	// nor beyond doubt none is not judged
+	reEmailSure    = regexp.MustCompile(`^[A-Za-z0-9]+([._+-][A-Za-z0-9]+)*@[A-Za-z0-9]+(-[A-Za-z0-9]+)*(\.[A-Za-z0-9]+(-[A-Za-z0-9]+)*)*\.[A-Za-z]{2,}$`)
+	reHostSure     = regexp.MustCompile(`^[A-Za-z]([A-Za-z0-9-]{0,30}[A-Za-z0-9])?(\.[A-Za-z]([A-Za-z0-9-]{0,30}[A-Za-z0-9])?)*$`)
+	reDurationSure = regexp.MustCompile(`^([0-9]{1,6})(ns|us|ms|s|m|h)$`)
+)
+
+var durationUnit = map[string]time.Duration{"ns": time.Nanosecond, "us": time.Microsecond, "ms": time.Millisecond, "s": time.Second, "m": time.Minute, "h": time.Hour}
+
+// validatedFormat: string formats whose texts are checked after binding (an empty text is a text to them)
+func validatedFormat(format string) bool {
+	switch format {
+	case "uuid", "email", "hostname", "duration", tagFormat:
+		return true
+	}
+	return false
 }
 
 // scalar computes the denotation of one literal text for (type, format).
@@ -221,6 +286,38 @@ func scalar(tpe, format, text string) (canon []string, ok bool, either bool) {
 				return nil, false, true
 			}
 			return nil, false, false
+		case "password":
+			return []string{"password:" + text}, true, false
+		case tagFormat:
+			if isTag(text) {
+				return []string{"tag:" + text}, true, false
+			}
+			return nil, false, false
+		case "email":
+			switch at := strings.Count(text, "@"); {
+			case reEmailSure.MatchString(text):
+				return []string{"email:" + text}, true, false
+			case at == 0, strings.HasPrefix(text, "@"), strings.HasSuffix(text, "@"):
+				return nil, false, false
+			}
+			return nil, false, true
+		case "hostname":
+			switch {
+			case reHostSure.MatchString(text) && len(text) < 100:
+				return []string{"hostname:" + text}, true, false
+			case strings.ContainsAny(text, " @/:?#"):
+				return nil, false, false
+			}
+			return nil, false, true
+		case "duration":
+			if mm := reDurationSure.FindStringSubmatch(text); mm != nil {
+				n, _ := strconv.ParseInt(mm[1], 10, 64)
+				return []string{fmt.Sprintf("duration:%d", n*int64(durationUnit[mm[2]]))}, true, false
+			}
+			if !strings.ContainsAny(text, "0123456789") || text[0] == ':' || strings.Contains(text, "::") {
+				return nil, false, false // no amount at all
+			}
+			return nil, false, true
 		}
 		return []string{"string:" + text}, true, false
 	case "integer":
@@ -315,6 +412,12 @@ func zeroCanon(tpe, format string) string {
 			return "uuid:"
 		case "byte":
 			return "bytes:"
+		case "email", "password", "hostname":
+			return format + ":"
+		case "duration":
+			return "duration:0"
+		case tagFormat:
+			return "tag:"
 		}
 		return "string:"
 	case "integer":
@@ -328,6 +431,20 @@ func zeroCanon(tpe, format string) string {
 		return "bool:false"
 	}
 	return "?"
+}
+
+// splitItems: the items of one text of a non-multi array.
+func splitItems(text, cf string) []string {
+	var items []string
+	if text == "" {
+		return nil
+	}
+	for _, s := range strings.Split(text, sepOf(cf)) {
+		if ts := strings.TrimSpace(s); ts != "" {
+			items = append(items, ts)
+		}
+	}
+	return items
 }
 
 func sepOf(cf string) string {
@@ -349,6 +466,18 @@ func valueKey(canon string) string {
 		return "float64:0000000000000000"
 	case "float32:80000000":
 		return "float32:00000000"
+	}
+	return canon
+}
+
+// normNaN: every not-a-number bit pattern is the same value.
+func normNaN(canon string) string {
+	var b uint64
+	if n, _ := fmt.Sscanf(canon, "float64:%016x", &b); n == 1 && math.IsNaN(math.Float64frombits(b)) {
+		return "float64:NaN"
+	}
+	if n, _ := fmt.Sscanf(canon, "float32:%08x", &b); n == 1 && math.IsNaN(float64(math.Float32frombits(uint32(b)))) {
+		return "float32:NaN"
 	}
 	return canon
 }
@@ -477,6 +606,42 @@ func expect(d *dcl, rq *Req) expectation {
 		_ = emptyText
 		return expectation{}, false
 	}
+	if d.Type == "array" && d.X.NestedCF != nil {
+		// an array of arrays is outside "array of those": the statement promises that binding does not panic
+		// (and no server error); a handler that runs must be handed the items of the items, nothing else
+		e := expectation{either: true, orRefuse: true, class: "array-of-arrays", why: "array of arrays: 422, or the items of the items"}
+		var outer []string
+		switch {
+		case absent:
+		case d.CollectionFormat == "multi":
+			outer = texts
+		default:
+			outer = splitItems(texts[len(texts)-1], d.CollectionFormat)
+		}
+		if absent && d.Required {
+			return e // nothing acceptable but the refusal
+		}
+		var rows []string
+		for _, o := range outer {
+			var cs []string
+			for _, it := range splitItems(o, *d.X.NestedCF) {
+				c, ok, either := scalar(d.ItemsType, d.ItemsFormat, it)
+				if either {
+					return expectation{either: true, why: "item outside judged grammar"}
+				}
+				if !ok {
+					return e // an item that is no literal of the item type: the refusal only
+				}
+				cs = append(cs, c[0])
+			}
+			if len(cs) == 0 {
+				return expectation{either: true, why: "empty inner array"}
+			}
+			rows = append(rows, "["+strings.Join(cs, " ")+"]")
+		}
+		e.accepts = []string{"[" + strings.Join(rows, " ") + "]"}
+		return e
+	}
 	if d.Type == "array" {
 		var items []string
 		if !absent {
@@ -503,8 +668,9 @@ func expect(d *dcl, rq *Req) expectation {
 			if e, rej := missing(true); rej {
 				return e
 			}
-			if !absent && hasValidation(d) {
-				return expectation{either: true, why: "empty text with a declared validation"}
+			if !absent && hasValidation(d) && d.Default == nil {
+				// (with a declared default the statement decides: "the declared default when absent or empty")
+				return expectation{either: true, why: "empty text with a declared validation and no default"}
 			}
 			if d.Default != nil {
 				dl, ok := d.Default.([]interface{})
@@ -582,8 +748,9 @@ func expect(d *dcl, rq *Req) expectation {
 		if e, rej := missing(text == ""); rej {
 			return e
 		}
-		if !absent && (hasValidation(d) || d.Format == "uuid") {
-			return expectation{either: true, why: "empty text with a declared validation (or a validated format)"}
+		if !absent && (hasValidation(d) || validatedFormat(d.Format)) && d.Default == nil {
+			// (with a declared default the statement decides: "the declared default when absent or empty")
+			return expectation{either: true, why: "empty text with a declared validation (or a validated format) and no default"}
 		}
 		if ds, isStr := d.Default.(string); isStr && ds == "" && d.Required && !d.AllowEmptyValue {
 			// the statement's two clauses meet: the default applies, and the value it yields is the empty
@@ -601,7 +768,24 @@ func expect(d *dcl, rq *Req) expectation {
 	}
 	c, ok, either := scalar(d.Type, d.Format, text)
 	if either {
-		return expectation{either: true, why: "outside judged grammar"}
+		e := expectation{either: true, why: "outside judged grammar"}
+		if d.Type == "number" && len(d.Enum) == 0 && d.X.MultipleOf == nil {
+			// "may be refused or bound to the strconv value": nothing else. The declared bounds apply to that value.
+			bits := 64
+			if d.Format == "float" {
+				bits = 32
+			}
+			v, err := strconv.ParseFloat(text, bits)
+			bounded := d.Minimum != nil || d.Maximum != nil
+			switch {
+			case err != nil, math.IsNaN(v) && bounded:
+			case bounded && !numValidations(d, v):
+				e.orRefuse, e.class, e.why = true, "number-text-outside-the-core-grammar", "outside the core grammar: 422 (the strconv value violates the declared bounds)"
+			default:
+				e.orRefuse, e.class, e.accepts, e.why = true, "number-text-outside-the-core-grammar", []string{normNaN(canonFloat(bits, v))}, "outside the core grammar: 422 or the strconv value"
+			}
+		}
+		return e
 	}
 	if !ok {
 		return expectation{reject: true, why: fmt.Sprintf("%q is not a valid in-range %s/%s literal", text, d.Type, d.Format)}
@@ -660,6 +844,16 @@ func canonOf(v interface{}) string {
 		return fmt.Sprintf("datetime:%d", time.Time(x).UnixNano())
 	case strfmt.UUID:
 		return "uuid:" + string(x)
+	case strfmt.Email:
+		return "email:" + string(x)
+	case strfmt.Password:
+		return "password:" + string(x)
+	case strfmt.Hostname:
+		return "hostname:" + string(x)
+	case strfmt.Duration:
+		return fmt.Sprintf("duration:%d", int64(x))
+	case verifTag:
+		return "tag:" + string(x)
 	case strfmt.Base64:
 		return fmt.Sprintf("bytes:%x", []byte(x))
 	case []byte:
@@ -726,6 +920,7 @@ type sut struct {
 	scrambled int64             // handler runs after which the received slices were overwritten
 	got       map[string]string // canonical form of every value handed to the handler, recorded inside the handler
 	binders   map[string]*middleware.UntypedRequestBinder
+	targets   map[string]reflect.Value // the kept struct targets (Case.Reuse), by declaration and field shape
 }
 
 // opPlan: the operations of a case: which declarations each one declares.
@@ -796,6 +991,13 @@ func (c *Case) paramObj(i int) map[string]interface{} {
 			it["maximum"] = *d.X.ItemsMaximum
 		}
 	}
+	if it, ok := m["items"].(map[string]interface{}); ok && d.X.NestedCF != nil {
+		outer := map[string]interface{}{"type": "array", "items": it}
+		if *d.X.NestedCF != "" {
+			outer["collectionFormat"] = *d.X.NestedCF
+		}
+		m["items"] = outer
+	}
 	if d.X.UniqueItems {
 		m["uniqueItems"] = true
 	}
@@ -864,10 +1066,12 @@ func build(c *Case) (*sut, error) {
 	if err != nil {
 		return nil, err
 	}
-	s := &sut{mutate: c.Mutate, binders: map[string]*middleware.UntypedRequestBinder{}}
+	s := &sut{mutate: c.Mutate, binders: map[string]*middleware.UntypedRequestBinder{}, targets: map[string]reflect.Value{}}
 	api := untyped.NewAPI(doc)
 	api.RegisterConsumer("application/x-www-form-urlencoded", runtime.DiscardConsumer)
 	api.RegisterConsumer("multipart/form-data", runtime.DiscardConsumer)
+	var tg verifTag
+	api.RegisterFormat(tagFormat, &tg, isTag) // the application's own format
 	for _, op := range c.plan() {
 		api.RegisterOperation(op.method, op.template, runtime.OperationHandlerFunc(func(params interface{}) (interface{}, error) {
 			s.ran++
@@ -923,6 +1127,9 @@ func assemble(target, method string, parts []part) (*http.Request, bool) {
 				for _, t := range texts {
 					query = append(query, url.QueryEscape(key)+"="+url.QueryEscape(t))
 				}
+			}
+			if rq.BodyShadow != nil {
+				fields = append(fields, field{key: d.Name, val: string(*rq.BodyShadow)}) // only sent when the request has a form body
 			}
 		case "header":
 			if !rq.Absent {
@@ -1042,6 +1249,9 @@ func declClass(d *dcl) string {
 			t += "(" + d.ItemsFormat + ")"
 		}
 		t += ">"
+		if d.X.NestedCF != nil {
+			t = "array<" + t + ">"
+		}
 	}
 	in := d.In
 	if d.Form != "" {
@@ -1071,6 +1281,11 @@ func presenceClass(d *dcl, rq *Req) string {
 		r2.Shadow = nil
 		return presenceClass(d, &r2) + "+same-name-in-query"
 	}
+	if rq.BodyShadow != nil {
+		r2 := *rq
+		r2.BodyShadow = nil
+		return presenceClass(d, &r2) + "+same-name-in-form-body"
+	}
 	switch {
 	case rq.OtherKey != "":
 		return "absent+differently-cased-key-present"
@@ -1097,12 +1312,16 @@ func featureOf(d *dcl, rq *Req, exp *expectation) string {
 	}
 	noText := rq.gone() || lastText == ""
 	switch {
+	case d.X.NestedCF != nil:
+		return "array-of-arrays"
 	case tpe == "boolean" && !noText && hasBoolJunk(d, rq):
 		return boolJunkFeature
 	case structTypedFormat(kind{tpe, format}) && ((d.Type != "array" && len(d.Enum) > 0) || (d.Type == "array" && len(d.X.ItemsEnum) > 0)):
 		// known finding: the enum validator compares the strfmt value with the listed texts
 		return "enum-on-a-format-not-held-in-a-string"
-	case rq.gone() && !d.Required && d.Default == nil && (hasValidation(d) || d.Format == "uuid"):
+	case rq.gone() && !d.Required && d.Default == nil && d.Type == "string" && d.Format == "duration":
+		return "optional-absent-duration"
+	case rq.gone() && !d.Required && d.Default == nil && (hasValidation(d) || validatedFormat(d.Format)):
 		return "optional-absent-with-validation"
 	case d.Default != nil && d.Type == "array":
 		return "array-default"
@@ -1118,6 +1337,10 @@ func featureOf(d *dcl, rq *Req, exp *expectation) string {
 		return "non-canonical-declared-header-name"
 	case d.Type == "string" && d.Format == "uuid":
 		return "string-kinded-format"
+	case d.Type == "string" && d.Format == "duration":
+		return "integer-kinded-format"
+	case d.Type == "string" && (validatedFormat(d.Format) || d.Format == "password"):
+		return "string-kinded-format-" + d.Format
 	}
 	return "plain"
 }
@@ -1207,7 +1430,7 @@ const maxIsolations = 400
 // subset: the case made of declaration di alone and the given requests (in order).
 func (c *Case) subset(di int, reqs []int) *Case {
 	d := c.decl(di)
-	o := &Case{Decls: []gen.Param{*d.Param}, Forms: []string{d.Form}, Mutate: c.Mutate}
+	o := &Case{Decls: []gen.Param{*d.Param}, Forms: []string{d.Form}, Mutate: c.Mutate, Reuse: c.Reuse, Helpers: c.Helpers}
 	if !d.X.zero() {
 		o.Ext = []Ext{d.X}
 	}
@@ -1308,6 +1531,7 @@ func runCase(m sink, c *Case, isolate bool) {
 		}
 		m.NT(declKey(d) + "|" + pc + "|" + strings.Join(mon.SQ(rq.Texts), "\x00") + shadow)
 		coverage(m, d, rq)
+		readers(m, c, ri, d, rq, isolate)
 		descr := func() string {
 			db, _ := json.Marshal(c.paramObj(rq.D))
 			return fmt.Sprintf("decl=%s form=%q level=%q method=%s presence=%s texts=%q headerKey=%q -> status %d body %.140q handler=%d got=%s ; expected: %s", db, d.Form, d.X.Level, d.method(), pc, mon.SQ(rq.Texts), rq.HeaderKey, rec.Code, rec.Body.String(), s.ran, gotCanon(s, d), expString(&exp))
@@ -1318,8 +1542,26 @@ func runCase(m sink, c *Case, isolate bool) {
 		}
 		if exp.either {
 			m.Class("not-judged")
-			if rec.Code >= 500 {
+			switch {
+			case rec.Code >= 500:
 				report(m, c, ri, isolate, "server-error/"+sigTail(feat, dc, ""), descr())
+			case !exp.orRefuse:
+			case s.ran == 0 && rec.Code != 422:
+				report(m, c, ri, isolate, fmt.Sprintf("reject-status-%d/%s/%s", rec.Code, exp.class, dc), descr())
+			case s.ran == 0 && !strings.Contains(rec.Body.String(), d.Name):
+				report(m, c, ri, isolate, "422-does-not-name-parameter/"+exp.class+"/"+dc, descr())
+			case s.ran == 0:
+				m.Class(exp.class + ":refused-422")
+			default:
+				got, okv := normNaN(gotCanon(s, d)), false
+				for _, a := range exp.accepts {
+					okv = okv || a == got
+				}
+				if !okv {
+					report(m, c, ri, isolate, "wrong-value/"+exp.class+"/"+dc, descr())
+				} else {
+					m.Class(exp.class + ":bound-to-the-value")
+				}
 			}
 			continue
 		}
@@ -1375,6 +1617,72 @@ func runCase(m sink, c *Case, isolate bool) {
 	}
 }
 
+// readers hands the texts of one request to the exported readers of package runtime, the way a generated
+// server does (runtime.Values of the query, the header or the parsed form): ReadSingleValue must give the
+// last occurrence ("" when there is none), ReadCollectionValue the items of the last occurrence.
+func readers(m sink, c *Case, ri int, d *dcl, rq *Req, isolate bool) {
+	if !c.Helpers || d.In == "path" || d.Type == "file" {
+		return
+	}
+	texts := mon.SQ(rq.Texts)
+	shapes := []string{"as-sent"}
+	if rq.gone() {
+		shapes = append(shapes, "key-present-without-values")
+	}
+	for _, shape := range shapes {
+		vals := runtime.Values{"unrelated": {"1", "2"}}
+		switch {
+		case shape == "key-present-without-values":
+			vals[d.Name] = []string{}
+		case rq.OtherKey != "":
+			vals[rq.OtherKey] = append([]string{}, texts...)
+		case !rq.Absent:
+			vals[d.Name] = append([]string{}, texts...)
+		}
+		want := ""
+		if !rq.gone() && len(texts) > 0 {
+			want = texts[len(texts)-1]
+		}
+		var got string
+		pv, stk := mon.Catch(func() { got = runtime.ReadSingleValue(vals, d.Name) })
+		m.Eval(1)
+		pc := presenceClass(d, &Req{Absent: rq.Absent, Texts: rq.Texts, OtherKey: rq.OtherKey})
+		if shape != "as-sent" {
+			pc = shape
+		}
+		descr := func(fn string, g, w interface{}) string {
+			return fmt.Sprintf("%s(%q, %q) -> %q ; expected %q", fn, map[string][]string(vals), d.Name, g, w)
+		}
+		switch {
+		case pv != nil:
+			report(m, c, ri, isolate, "readers/panic/ReadSingleValue/"+pc, fmt.Sprintf("panic: %v ; %s\n%s", pv, descr("ReadSingleValue", "<panic>", want), stk))
+		case got != want:
+			report(m, c, ri, isolate, "readers/wrong-value/ReadSingleValue/"+pc, descr("ReadSingleValue", got, want))
+		default:
+			m.Class("readers:single-value-as-expected")
+		}
+		if d.Type != "array" || d.CollectionFormat == "multi" {
+			continue
+		}
+		wantItems := splitItems(want, d.CollectionFormat)
+		var gotItems []string
+		pv, stk = mon.Catch(func() { gotItems = runtime.ReadCollectionValue(vals, d.Name, d.CollectionFormat) })
+		m.Eval(1)
+		cf := d.CollectionFormat
+		if cf == "" {
+			cf = "no-collection-format"
+		}
+		switch {
+		case pv != nil:
+			report(m, c, ri, isolate, "readers/panic/ReadCollectionValue/"+cf+"/"+pc, fmt.Sprintf("panic: %v ; %s\n%s", pv, descr("ReadCollectionValue", "<panic>", wantItems), stk))
+		case len(gotItems) != len(wantItems) || (len(wantItems) > 0 && !reflect.DeepEqual(gotItems, wantItems)):
+			report(m, c, ri, isolate, "readers/wrong-items/ReadCollectionValue/"+cf+"/"+pc, descr("ReadCollectionValue", gotItems, wantItems))
+		default:
+			m.Class("readers:collection-as-expected")
+		}
+	}
+}
+
 // coverage counts the request under the input shapes added by the strengthening round (evidence only).
 func coverage(m sink, d *dcl, rq *Req) {
 	if rq.CT != "" && d.In == "formData" {
@@ -1408,7 +1716,7 @@ func sigTail(feat, dc, rest string) string {
 // multiAlone: the case made of the operation of MReqs[mi] alone and that one request.
 func (c *Case) multiAlone(mi int) *Case {
 	mr := c.MReqs[mi]
-	o := &Case{Mutate: c.Mutate}
+	o := &Case{Mutate: c.Mutate, Reuse: c.Reuse, Helpers: c.Helpers}
 	var g []int
 	anyExt := false
 	for k, di := range c.Ops[mr.Op] {
@@ -1469,6 +1777,10 @@ func runMulti(m sink, c *Case, s *sut, mi int) {
 			rejected = append(rejected, k)
 		}
 		fp = append(fp, declKey(pt.d)+"|"+presenceClass(pt.d, pt.rq)+"|"+strings.Join(mon.SQ(pt.rq.Texts), "\x00"))
+		if pt.rq.BodyShadow != nil {
+			fp[len(fp)-1] += "|b=" + string(*pt.rq.BodyShadow)
+			m.Class("shape:query-parameter-with-same-name-in-form-body")
+		}
 	}
 	one := c.multiAlone(mi)
 	s.ran, s.got = 0, nil
@@ -1599,7 +1911,7 @@ func structTargetMulti(m sink, c *Case, mi int, parts []part, exps []expectation
 		}
 	}
 	target := reflect.New(reflect.StructOf(fields))
-	binder := middleware.NewUntypedRequestBinder(params, new(spec.Swagger), strfmt.Default)
+	binder := middleware.NewUntypedRequestBinder(params, new(spec.Swagger), registry)
 	req, ok := assemble(fmt.Sprintf("/m%d", c.MReqs[mi].Op), "POST", parts)
 	if !ok {
 		return
@@ -1686,6 +1998,16 @@ func goTypeFor(tpe, format string) reflect.Type {
 			return reflect.TypeOf(strfmt.UUID(""))
 		case "byte":
 			return reflect.TypeOf(strfmt.Base64{})
+		case "email":
+			return reflect.TypeOf(strfmt.Email(""))
+		case "password":
+			return reflect.TypeOf(strfmt.Password(""))
+		case "hostname":
+			return reflect.TypeOf(strfmt.Hostname(""))
+		case "duration":
+			return reflect.TypeOf(strfmt.Duration(0))
+		case tagFormat:
+			return reflect.TypeOf(verifTag(""))
 		}
 		return reflect.TypeOf("")
 	case "integer":
@@ -1711,7 +2033,7 @@ func goTypeFor(tpe, format string) reflect.Type {
 
 // fieldType: the struct field type for a declaration; shape "" (value), "ptr", "uint".
 func fieldType(d *dcl, shape string) reflect.Type {
-	if d.Type == "file" {
+	if d.Type == "file" || d.X.NestedCF != nil {
 		return nil
 	}
 	if d.Type == "array" {
@@ -1758,8 +2080,8 @@ func pointerFieldShape(d *dcl, rq *Req) string {
 		return "default-declared-and-nothing-sent"
 	case noText && !rq.gone():
 		return "empty-text-sent-and-no-default"
-	case !noText && (hasValidation(d) || d.Format == "uuid"):
-		return "validation-declared-and-text-sent" // uuid: the format itself is checked by the validator
+	case !noText && (hasValidation(d) || validatedFormat(d.Format)):
+		return "validation-declared-and-text-sent" // uuid, email, ...: the format itself is checked by the validator
 	}
 	return ""
 }
@@ -1811,7 +2133,7 @@ func structTargetShape(m sink, c *Case, s *sut, ri int, d *dcl, exp *expectation
 		if err := json.Unmarshal(pj, &sp); err != nil {
 			return
 		}
-		binder = middleware.NewUntypedRequestBinder(map[string]spec.Parameter{"F": sp}, new(spec.Swagger), strfmt.Default)
+		binder = middleware.NewUntypedRequestBinder(map[string]spec.Parameter{"F": sp}, new(spec.Swagger), registry)
 		s.binders[bk] = binder
 	}
 	st := reflect.StructOf([]reflect.StructField{{Name: "F", Type: ft}})
@@ -1875,6 +2197,7 @@ func structTargetShape(m sink, c *Case, s *sut, ri int, d *dcl, exp *expectation
 			return
 		}
 		m.Class("struct-rejected")
+		reusedTarget(m, c, s, ri, d, exp, isolate, dc, pc, feat, shape, ft, binder, prefix)
 		return
 	}
 	if berr != nil {
@@ -1884,10 +2207,129 @@ func structTargetShape(m sink, c *Case, s *sut, ri int, d *dcl, exp *expectation
 	for _, a := range exp.accepts {
 		if a == got {
 			m.Class("struct-bound")
+			reusedTarget(m, c, s, ri, d, exp, isolate, dc, pc, feat, shape, ft, binder, prefix)
 			return
 		}
 		if got == "nil-pointer" && exp.why == "zero value" && a == zeroCanon(d.Type, d.Format) {
 			m.Class("struct-bound") // nothing sent, nothing declared: the pointer may stay nil
+			reusedTarget(m, c, s, ri, d, exp, isolate, dc, pc, feat, shape, ft, binder, prefix)
+			return
+		}
+	}
+	report(m, c, ri, isolate, prefix+"wrong-value/"+sigTail(feat, dc, pc+"/"+lc), descr())
+}
+
+// presetValue: a non-zero value of a struct field type, what the owner of a kept struct left in it.
+func presetValue(t reflect.Type) reflect.Value {
+	v := reflect.New(t).Elem()
+	switch t {
+	case reflect.TypeOf(strfmt.Date{}):
+		v.Set(reflect.ValueOf(strfmt.Date(time.Date(2001, 2, 3, 0, 0, 0, 0, time.UTC))))
+		return v
+	case reflect.TypeOf(strfmt.DateTime{}):
+		v.Set(reflect.ValueOf(strfmt.DateTime(time.Date(2001, 2, 3, 4, 5, 6, 0, time.UTC))))
+		return v
+	}
+	switch t.Kind() { //nolint:exhaustive
+	case reflect.String:
+		v.SetString("left-by-the-owner-of-the-struct")
+	case reflect.Int, reflect.Int8, reflect.Int16, reflect.Int32, reflect.Int64:
+		v.SetInt(77)
+	case reflect.Uint, reflect.Uint8, reflect.Uint16, reflect.Uint32, reflect.Uint64:
+		v.SetUint(77)
+	case reflect.Float32, reflect.Float64:
+		v.SetFloat(7.75)
+	case reflect.Bool:
+		v.SetBool(true)
+	case reflect.Slice:
+		sl := reflect.MakeSlice(t, 2, 2)
+		sl.Index(0).Set(presetValue(t.Elem()))
+		sl.Index(1).Set(presetValue(t.Elem()))
+		v.Set(sl)
+	case reflect.Ptr:
+		p := reflect.New(t.Elem())
+		p.Elem().Set(presetValue(t.Elem()))
+		v.Set(p)
+	}
+	return v
+}
+
+// reusedTarget binds the request once more, into the struct value that is kept for the declaration (and
+// field shape) over the whole case. It held non-zero values of its owner before the first Bind and holds
+// what earlier requests left afterwards; a Bind that succeeds must leave in it exactly the value the
+// statement gives for THIS request (the zero value for an absent optional parameter without default).
+// Only consulted for requests whose fresh struct target was judged as expected.
+func reusedTarget(m sink, c *Case, s *sut, ri int, d *dcl, exp *expectation, isolate bool, dc, pc, feat, shape string, ft reflect.Type, binder *middleware.UntypedRequestBinder, prefix string) {
+	if !c.Reuse {
+		return
+	}
+	rq := &c.Reqs[ri]
+	tk := fmt.Sprintf("%d/%s", rq.D, shape)
+	target, have := s.targets[tk]
+	if !have {
+		target = reflect.New(reflect.StructOf([]reflect.StructField{{Name: "F", Type: ft}}))
+		target.Elem().Field(0).Set(presetValue(ft))
+		s.targets[tk] = target
+	}
+	req, ok := c.request(rq)
+	if !ok {
+		return
+	}
+	var rp middleware.RouteParams
+	if d.In == "path" {
+		rp = middleware.RouteParams{{Name: d.Name, Value: string(rq.Texts[0])}}
+	}
+	fv := target.Elem().Field(0)
+	read := func() string {
+		g := ""
+		if shape == "ptr" {
+			if fv.IsNil() {
+				return "nil-pointer"
+			}
+			g = canonOf(fv.Elem().Interface())
+		} else {
+			g = canonOf(fv.Interface())
+		}
+		if g == "nil" && d.Type == "array" {
+			g = "[]"
+		}
+		return g
+	}
+	before := read()
+	var berr error
+	pv, stk := mon.Catch(func() { berr = binder.Bind(req, rp, runtime.JSONConsumer(), target.Interface()) })
+	m.Eval(1)
+	m.Class("shape:struct-target-kept-across-requests")
+	prefix += "kept-struct/"
+	lc := literalClass(d, rq)
+	got := "<panic>"
+	if pv == nil {
+		got = read()
+	}
+	descr := func() string {
+		db, _ := json.Marshal(c.paramObj(rq.D))
+		return fmt.Sprintf("struct target kept by its owner across requests (field %s, holding %s before this Bind): decl=%s presence=%s texts=%q -> err=%v field=%s ; expected: %s", ft, before, db, pc, mon.SQ(rq.Texts), berr, got, expString(exp))
+	}
+	if pv != nil {
+		report(m, c, ri, isolate, prefix+"panic/"+sigTail(feat, dc, ""), fmt.Sprintf("panic: %v ; %s\n%s", pv, descr(), stk))
+		return
+	}
+	if exp.reject {
+		if berr == nil {
+			report(m, c, ri, isolate, prefix+"accepted-invalid/"+sigTail(feat, dc, lc), descr())
+		}
+		return // what a refused Bind leaves in the struct is not judged
+	}
+	if berr != nil {
+		report(m, c, ri, isolate, prefix+"refused-valid/"+sigTail(feat, dc, pc+"/"+lc), descr())
+		return
+	}
+	if c.Mutate && shape == "" {
+		defer scramble(fv.Interface())
+	}
+	for _, a := range exp.accepts {
+		if a == got || (got == "nil-pointer" && exp.why == "zero value" && a == zeroCanon(d.Type, d.Format)) {
+			m.Class("kept-struct-bound")
 			return
 		}
 	}
@@ -1917,6 +2359,8 @@ func gotCanon(s *sut, d *dcl) string {
 
 func expString(e *expectation) string {
 	switch {
+	case e.either && e.orRefuse:
+		return "422 or " + strings.Join(e.accepts, " or ") + " (" + e.why + ")"
 	case e.either:
 		return "not judged (" + e.why + ")"
 	case e.reject:
@@ -2005,6 +2449,9 @@ var scalarKinds = []kind{
 	{"string", ""}, {"string", "date"}, {"string", "date-time"}, {"string", "uuid"}, {"string", "byte"},
 	{"integer", ""}, {"integer", "int8"}, {"integer", "int16"}, {"integer", "int32"}, {"integer", "int64"},
 	{"number", ""}, {"number", "float"}, {"number", "double"}, {"boolean", ""},
+	// other registered formats: three held in a named string type, one (duration) in an integer-kinded type
+	// bound through its TextUnmarshaler, and one the application registers itself
+	{"string", "email"}, {"string", "password"}, {"string", "hostname"}, {"string", "duration"}, {"string", tagFormat},
 }
 var itemKinds = []kind{{"string", ""}, {"integer", "int32"}, {"number", "double"}, {"boolean", ""}, {"string", "date"}, {"integer", ""}, {"number", ""}}
 var collFormats = []string{"", "csv", "ssv", "tsv", "pipes", "multi"}
@@ -2021,6 +2468,14 @@ func defaultFor(k kind) interface{} {
 			return "6ba7b810-9dad-11d1-80b4-00c04fd430c8"
 		case "byte":
 			return "aGVsbG8="
+		case "email":
+			return "dflt@example.com"
+		case "hostname":
+			return "dflt.example.com"
+		case "duration":
+			return "90s"
+		case tagFormat:
+			return "tdflt"
 		}
 		return "dflt"
 	case "integer":
@@ -2157,6 +2612,11 @@ var stringPool = []string{"plain", "with space", "a,b", "é", "%41", "x", "abcde
 var datePool = []string{"2019-03-04", "2020-02-29", "2021-02-29", "2020-1-1", "20200101", "2020-02-28T00:00:00Z", "junk", "0001-01-01", "9999-12-31", "2020-13-01"}
 var dateTimePool = []string{"2019-03-04T05:06:07Z", "2019-03-04T06:06:07+01:00", "2020-01-02T03:04:05Z", "2020-01-02T03:04:05+01:00", "2020-01-02T03:04:05.123Z", "2020-01-02 03:04:05", "junk", "2020-01-02", "2020-01-02T25:00:00Z", "2020-01-02T03:04:05"}
 var uuidPool = []string{"6ba7b811-9dad-11d1-80b4-00c04fd430c8", "6ba7b810-9dad-11d1-80b4-00c04fd430c8", "6BA7B810-9DAD-11D1-80B4-00C04FD430C8", "not-a-uuid", "{6ba7b810-9dad-11d1-80b4-00c04fd430c8}", "6ba7b8109dad11d180b400c04fd430c8", "6ba7b810-9dad-11d1-80b4-00c04fd430c", "zzzzzzzz-9dad-11d1-80b4-00c04fd430c8"}
+var emailPool = []string{"a@b.co", "dflt@example.com", "user.name+tag@mail.example.org", "junk", "a@", "@b.co", "a@b", "Name <a@b.co>", "a@@b.co", "A@B.CO"}
+var hostnamePool = []string{"example.com", "dflt.example.com", "localhost", "a-b.example.org", "exa mple.com", "a@b.co", "host/path", "-bad-.com", "a..b", "under_score.com", "xn--bcher-kva.example"}
+var durationPool = []string{"90s", "30s", "0s", "1h", "15m", "250ms", "1h30m", "3 days", "2w", "1.5h", "-5s", "junk", "h", "12:30", "30"}
+var passwordPool = []string{"secret", "", "with space", "p@ss,word|1", "\xff\xfe", "dflt"}
+var tagPool = []string{"tdflt", "t1", "tabcdefg", "tabcdefgh", "t", "x1", "T1", "t-1", "junk"}
 var bytePool = []string{"aGVsbG8=", "aGVsbG8", "+/8=", "-_8=", "!!!", "YQ==", "YWI=", "a", "++++", "AAAA"}
 
 func poolFor(tpe, format string) []string {
@@ -2177,13 +2637,37 @@ func poolFor(tpe, format string) []string {
 			return uuidPool
 		case "byte":
 			return bytePool
+		case "email":
+			return emailPool
+		case "hostname":
+			return hostnamePool
+		case "duration":
+			return durationPool
+		case "password":
+			return passwordPool
+		case tagFormat:
+			return tagPool
 		}
 		return stringPool
 	}
 	return stringPool
 }
 
+// triagePending: request shapes left out of the generator while an alarm is being triaged (none at present).
+func triagePending(d *dcl, rq *Req) bool { return false }
+
 func genReqs(r *rand.Rand, di int, d *dcl, full bool) []Req {
+	all := genReqsUnfiltered(r, di, d, full)
+	out := all[:0]
+	for i := range all {
+		if !triagePending(d, &all[i]) {
+			out = append(out, all[i])
+		}
+	}
+	return out
+}
+
+func genReqsUnfiltered(r *rand.Rand, di int, d *dcl, full bool) []Req {
 	out := genReqsPlain(r, di, d, full)
 	if d.In == "query" || d.In == "formData" {
 		// field names are case-sensitive in these locations: a value under "P3" is not parameter "p3"
@@ -2276,6 +2760,30 @@ func genReqsPlain(r *rand.Rand, di int, d *dcl, full bool) []Req {
 	}
 	out = append(out, Req{D: di, Absent: true})
 	out = append(out, Req{D: di, Texts: []mon.Q{""}, HeaderKey: hk()})
+	if d.Type == "array" && d.X.NestedCF != nil {
+		pool := poolFor(d.ItemsType, d.ItemsFormat)
+		osep, isep := sepOf(d.CollectionFormat), sepOf(*d.X.NestedCF)
+		for i := 0; i < 10; i++ {
+			var rows []string
+			for j := 1 + r.Intn(3); j > 0; j-- {
+				var its []string
+				for k := 1 + r.Intn(3); k > 0; k-- {
+					if r.Intn(5) == 0 {
+						its = append(its, pool[r.Intn(len(pool))])
+					} else {
+						its = append(its, validItem(r, d.ItemsType, d.ItemsFormat))
+					}
+				}
+				rows = append(rows, strings.Join(its, isep))
+			}
+			if d.CollectionFormat == "multi" {
+				out = append(out, Req{D: di, Texts: mon.QS(rows), HeaderKey: hk()})
+			} else {
+				out = append(out, Req{D: di, Texts: []mon.Q{mon.Q(strings.Join(rows, osep))}, HeaderKey: hk()})
+			}
+		}
+		return out
+	}
 	if d.Type == "array" {
 		pool := poolFor(d.ItemsType, d.ItemsFormat)
 		sep := sepOf(d.CollectionFormat)
@@ -2366,6 +2874,12 @@ func enumFor(k kind) []interface{} {
 			return []interface{}{"6ba7b810-9dad-11d1-80b4-00c04fd430c8", "6ba7b811-9dad-11d1-80b4-00c04fd430c8"}
 		case "byte":
 			return []interface{}{"aGVsbG8=", "YQ=="}
+		case "email":
+			return []interface{}{"dflt@example.com", "a@b.co"}
+		case "hostname":
+			return []interface{}{"dflt.example.com", "localhost"}
+		case tagFormat:
+			return []interface{}{"tdflt", "t1"}
 		}
 		return []interface{}{"dflt", "plain", "ab", "a", "bb"}
 	case "integer":
@@ -2427,6 +2941,9 @@ func extraDecls() (decls []gen.Param, forms []string, exts []Ext) {
 			case "enum":
 				// (an enum on a date, date-time or byte parameter refuses every listed value on the unchanged
 				// tree: known finding, feature class enum-on-a-format-not-held-in-a-string)
+				if k.format == "duration" {
+					return // the value is not held in a string: the class of the known enum finding, not widened here
+				}
 				base.Enum = enumFor(k)
 			case "other":
 				switch k.tpe {
@@ -2507,6 +3024,28 @@ func extraDecls() (decls []gen.Param, forms []string, exts []Ext) {
 			}
 		}
 	}
+	// arrays of arrays (items: {type: array, collectionFormat, items}): the description language allows them
+	sp := func(v string) *string { return &v }
+	for _, nd := range []struct {
+		in, form, cf, icf string
+		ik                kind
+		required          bool
+	}{
+		{"query", "", "pipes", "csv", kind{"integer", "int32"}, false},
+		{"query", "", "pipes", "", kind{"string", ""}, true},
+		{"query", "", "multi", "csv", kind{"integer", ""}, false},
+		{"query", "", "csv", "ssv", kind{"number", "double"}, false},
+		{"query", "", "csv", "csv", kind{"string", ""}, false},
+		{"header", "", "pipes", "csv", kind{"integer", "int32"}, false},
+		{"header", "", "", "pipes", kind{"boolean", ""}, true},
+		{"path", "", "pipes", "csv", kind{"integer", "int64"}, true},
+		{"formData", "urlencoded", "multi", "pipes", kind{"string", "date"}, false},
+		{"formData", "urlencoded", "tsv", "csv", kind{"integer", "int32"}, false},
+		{"formData", "multipart", "pipes", "ssv", kind{"string", ""}, false},
+		{"formData", "multipart", "ssv", "", kind{"number", ""}, true},
+	} {
+		add(gen.Param{In: nd.in, Type: "array", ItemsType: nd.ik.tpe, ItemsFormat: nd.ik.format, CollectionFormat: nd.cf, Required: nd.required}, Ext{NestedCF: sp(nd.icf)}, nd.form)
+	}
 	return decls, forms, exts
 }
 
@@ -2545,7 +3084,7 @@ var multiHeaderNames = []string{"X-Zz%dk", "x-zz%dk", "X-ZZ%dK", "Zz%dk-Id"}
 // genMulti builds one case of nOps operations, each declaring 2-4 of the given declarations (renamed so
 // that no two share a name), and nReq requests per operation.
 func genMulti(r *rand.Rand, decls []gen.Param, forms []string, exts []Ext, idx []int, nOps, nReq int) *Case {
-	c := &Case{Mutate: true}
+	c := &Case{Mutate: true, Reuse: true}
 	for o := 0; o < nOps; o++ {
 		want := 2 + r.Intn(3)
 		form := ""
@@ -2567,6 +3106,9 @@ func genMulti(r *rand.Rand, decls []gen.Param, forms []string, exts []Ext, idx [
 			if ik := (kind{p.ItemsType, p.ItemsFormat}); (p.Type != "array" && len(p.Enum) > 0 && structTypedFormat(kind{p.Type, p.Format})) ||
 				(p.Type == "array" && di < len(exts) && len(exts[di].ItemsEnum) > 0 && structTypedFormat(ik)) {
 				continue // the declarations of the known finding get operations of their own only
+			}
+			if di < len(exts) && exts[di].NestedCF != nil {
+				continue // arrays of arrays get operations of their own only
 			}
 			if p.In == "formData" {
 				if form != "" && forms[di] != form {
@@ -2601,6 +3143,9 @@ func genMulti(r *rand.Rand, decls []gen.Param, forms []string, exts []Ext, idx [
 				if d.In == "path" && (rq.Absent || len(rq.Texts) != 1 || rq.Texts[0] == "") {
 					continue
 				}
+				if triagePending(d, &rq) {
+					continue
+				}
 				e := expect(d, &rq)
 				if !e.either && !e.reject {
 					cands[k].ok = append(cands[k].ok, rq)
@@ -2629,6 +3174,19 @@ func genMulti(r *rand.Rand, decls []gen.Param, forms []string, exts []Ext, idx [
 				}
 				if form != "" && q%3 == 2 {
 					rq.CT = "charset"
+				}
+				if dk := c.decl(g[k]); form != "" && dk.In == "query" && r.Intn(4) == 0 {
+					// the form body carries a field named like the query parameter, with another text
+					pool := poolFor(dk.Type, dk.Format)
+					if dk.Type == "array" {
+						pool = poolFor(dk.ItemsType, dk.ItemsFormat)
+					}
+					for tries := 0; tries < 4 && rq.BodyShadow == nil; tries++ {
+						sh := mon.Q(pool[r.Intn(len(pool))])
+						if n := len(rq.Texts); sh != "" && (rq.gone() || n == 0 || rq.Texts[n-1] != sh) {
+							rq.BodyShadow = &sh
+						}
+					}
 				}
 				mr.Parts = append(mr.Parts, rq)
 			}
@@ -2672,7 +3230,7 @@ func run(m *mon.M) {
 			if end > len(ids) {
 				end = len(ids)
 			}
-			c := &Case{Mutate: true}
+			c := &Case{Mutate: true, Reuse: true, Helpers: true}
 			for k, di := range ids[g:end] {
 				c.Decls = append(c.Decls, decls[di])
 				c.Forms = append(c.Forms, forms[di])
@@ -2698,7 +3256,7 @@ func run(m *mon.M) {
 		switch {
 		case m.Quick():
 			for _, di := range idx2 {
-				if r.Intn(4) == 0 {
+				if r.Intn(4) == 0 || exts[di].NestedCF != nil { // (the few arrays of arrays: in every pass)
 					part = append(part, di)
 				}
 			}
